@@ -196,4 +196,17 @@ CLAIMS = {
                  "labels and dtype reach the constructor; the listed malformed inputs are refused before construction.",
         "note": "Undecided: equality of the round-tripped field; the np.allclose spacing decision.",
     },
+    "C19": {
+        "technique": "static analysis: guard dominance for every refusal in tools.py, receiver analysis of all field-data reads "
+                     "(normalised field only), literal tables (neighbour offsets, triangle orientation, cyclic index pairs, "
+                     "symmetric tensor contraction) as term normal forms, inter-procedural axis-tag rule for the demagnetisation "
+                     "tensor (coordinate permutation == cell-length permutation per call)",
+        "level": _GEN + "For C19: each tool refuses unfit fields before computing; both charge-density methods read data only through "
+                 "field.orientation; the continuous density, the four lattice triangles with their bounds/validity tests, the "
+                 "emergent-field components and the Bloch-point integration chain have the documented form; neighbouring-cell "
+                 "angles slice and shrink only the named axis and clip before arccos; every demagnetisation-tensor element offsets "
+                 "each coordinate by its own axis' cell length, components are stacked xx,yy,zz,xy,xz,yz and contracted symmetrically.",
+        "note": "Undecided: integer charges, rotational invariances, trace -1, agreement of the two tensor routes (they share _N), "
+                "the -|M| sum rule numerically.",
+    },
 }
